@@ -280,11 +280,32 @@ def ml_part(chk, tier):
                 if r["scn"]["o"]["dotall"]:
                     args.append("--multiline-dotall")
                 jobs.append({"args": args + ["-e", rr.render(r["scn"]["u"]), f], "_f": f, "_inp": inp, "_r": r, "_std": form[0] == "-n"})
+            # nothing in front of the lines (-N -I, no heading), the same file twice: the lines of every block, each with its
+            # terminator - also the last line of a file that does not end in one - and nothing between the two searches
+            args = ["--no-config", "--color", "never", "-j1", "-U", "-N", "-I", "--no-heading"] + (["--multiline-dotall"] if r["scn"]["o"]["dotall"] else [])
+            jobs.append({"args": args + ["-e", rr.render(r["scn"]["u"]), f, f], "_f": f, "_inp": inp, "_r": r, "_std": False, "_bare": True})
         outs = rgrun.run_many(jobs)
         chk.evaluations += len(jobs)
         for j, (rc, so, se) in zip(jobs, outs):
             r = j["_r"]
             inp = j["_inp"]
+            if j.get("_bare"):
+                exp = b""
+                pos = 0
+                while pos < len(inp):
+                    e = inp.find(b"\n", pos)
+                    e = len(inp) if e < 0 else e
+                    end = min(e + 1, len(inp))
+                    if any(m[0] < end and m[1] > pos for m in r["ms"]):
+                        exp += inp[pos:e] + b"\n"
+                    pos = end
+                if so != exp + exp:
+                    chk.violation({"variant": "ml_bare_twice", "pattern": rr.render(r["scn"]["u"]), "opts": sorted(k for k, v in r["scn"]["o"].items() if v),
+                                   "unterminated": not inp.endswith(b"\n")},
+                                  {"why": {"got": repr(so[:200]), "expected": repr((exp + exp)[:200])}, "args": j["args"][:-2], "input": list(inp)})
+                else:
+                    chk.validated += 1
+                continue
             if j["_std"]:
                 # -U -n -b --column: every line covered by a match is printed with its number, the column of the first
                 # match in it (1 when a match continues from the previous line) and the offset of the line
@@ -467,6 +488,130 @@ def raw_json_part(chk, tier):
         sc.close()
 
 
+ATTR_PRE = b"""#!/bin/sh
+# preprocessor of the attribution part: by the file's extension it writes all / the first two lines / nothing and fails
+case "$1" in
+  *.after) cat "$1"; exit 1 ;;
+  *.mid) head -n 2 "$1"; exit 1 ;;
+  *.before) exit 1 ;;
+  *) exec cat "$1" ;;
+esac
+"""
+
+
+def attribution_part(chk, tier):
+    """Several files per run, some of which fail part-way (a --pre command that writes a prefix of the file and exits
+    unsuccessfully): every line printed under a heading / with a path prefix / inside a JSON begin..end bracket is that
+    line of THAT file.  Judged by TLC (specs/cli/Attribution.tla)."""
+    import random
+    import re
+    rng = random.Random(vlib.seed() * 104729 + 9)
+    ntrees = 40 if tier == "quick" else 400
+    sc = rgrun.Scratch("c09attr")
+    try:
+        pre = sc.write("pre.sh", ATTR_PRE)
+        os.chmod(pre, 0o755)
+        jobs, meta = [], []
+        ids = {}
+        for t in range(ntrees):
+            d = "t%03d" % t
+            nf = rng.randint(2, 4)
+            files = []
+            for k in range(nf):
+                kind = rng.choice(["ok", "ok", "after", "mid", "before", "nomatch"]) if k or t % 2 else rng.choice(["after", "mid"])
+                nl = rng.randint(3, 7)
+                lines = []
+                for n in range(1, nl + 1):
+                    m = kind != "nomatch" and (n <= 2 or rng.random() < 0.5)
+                    lines.append(("foo " if m else "bar ") + "k%dn%d" % (k, n))
+                name = "f%d.%s" % (k, kind)
+                sc.write(d + "/" + name, ("\n".join(lines) + "\n").encode())
+                files.append({"name": name, "kind": kind, "text": lines,
+                              "lines": [ids.setdefault(x, len(ids) + 1) for x in lines],
+                              "want": [n for n, x in enumerate(lines, 1) if x.startswith("foo ")],
+                              "ok": kind in ("ok", "nomatch")})
+            for form, fl in (("heading", ["--heading", "-n"]), ("heading", ["--heading", "-n", "-C1"]),
+                             ("prefix", ["--no-heading", "-H", "-n"]), ("prefix", ["--no-heading", "-H", "-n", "-A1"]),
+                             ("json", ["--json"]), ("json", ["--json", "-B1"])):
+                for th in (["-j1", "--sort", "path"], ["-j1"], ["-j2"]):
+                    explicit = (t + len(fl) + len(th)) % 2 == 0
+                    args = ["--no-config", "--color", "never"] + th + fl + ["--pre", pre, "-e", "foo"]
+                    args += [f["name"] for f in files] if explicit else ["./"]
+                    jobs.append({"args": args, "cwd": sc.path(d)})
+                    meta.append((t, form, files, fl, th, explicit))
+        outs = rgrun.run_many(jobs)
+        chk.evaluations += len(jobs)
+        runs = []
+        for rid, ((t, form, files, fl, th, explicit), (rc, so, se)) in enumerate(zip(meta, outs), 1):
+            names = {}
+            for k, f in enumerate(files, 1):
+                names[f["name"]] = k
+                names["./" + f["name"]] = k
+            toks = []
+            if form == "json":
+                for m in rgrun.json_matches(so):
+                    ty = m.get("type")
+                    pth = ((m.get("data") or {}).get("path") or {}).get("text")
+                    if ty == "begin":
+                        toks.append({"k": "heading", "f": names.get(pth, 0), "n": 0, "t": 0, "m": False})
+                    elif ty == "end":
+                        toks.append({"k": "end", "f": names.get(pth, 0), "n": 0, "t": 0, "m": False})
+                    elif ty in ("match", "context"):
+                        txt = (m["data"].get("lines") or {}).get("text", "")
+                        toks.append({"k": "line", "f": names.get(pth, 0), "n": m["data"].get("line_number") or 0,
+                                     "t": ids.get(txt.rstrip("\n"), 0), "m": ty == "match"})
+                    elif ty != "summary":
+                        toks.append({"k": "other", "f": 0, "n": 0, "t": 0, "m": False})
+            else:
+                for raw in so.decode("latin1").split("\n")[:-1]:
+                    if raw in ("", "--"):
+                        toks.append({"k": "sep", "f": 0, "n": 0, "t": 0, "m": False})
+                        continue
+                    if form == "heading" and raw in names:
+                        toks.append({"k": "heading", "f": names[raw], "n": 0, "t": 0, "m": False})
+                        continue
+                    f = 0
+                    body = raw
+                    if form == "prefix":
+                        mm = re.match(r"^((?:\./)?f\d\.[a-z]+)[:-](.*)$", raw)
+                        if mm:
+                            f, body = names.get(mm.group(1), 0), mm.group(2)
+                            # keep the separator in front of the number for the match below
+                            body = raw[len(mm.group(1)) + 1:]
+                    mm = re.match(r"^(\d+)([:-])(.*)$", body)
+                    if mm and (form == "heading" or f):
+                        toks.append({"k": "line", "f": f, "n": int(mm.group(1)), "t": ids.get(mm.group(3), 0), "m": mm.group(2) == ":"})
+                    else:
+                        toks.append({"k": "other", "f": 0, "n": 0, "t": 0, "m": False})
+            runs.append({"id": rid, "form": form, "out": toks,
+                         "files": [{"lines": f["lines"], "want": f["want"], "ok": f["ok"]} for f in files]})
+        os.makedirs(os.path.join(vlib.WORK, "c09"), exist_ok=True)
+        path = os.path.join(vlib.WORK, "c09", "attr_%d.ndjson" % os.getpid())
+        with open(path, "w") as f:
+            for r in runs:
+                f.write(json.dumps(r) + "\n")
+        res = vlib.tlc("cli/Attribution", "Attribution", workers=8, timeout=1800, env={"RUNS": path})
+        os.remove(path)
+        if res.rc != 0:
+            raise vlib.ToolError("Attribution failed:\n" + res.tail(40))
+        chk.add_tlc(res)
+        bad = set(v["id"] for v in res.emits("VERDICT"))
+        vlib.log("[C09] attribution: %d runs of %d trees judged by TLC, %d not allowed" % (len(runs), ntrees, len(bad)))
+        for r, (t, form, files, fl, th, explicit), j, (rc, so, se) in zip(runs, meta, jobs, outs):
+            if r["id"] in bad:
+                chk.violation({"part": "attribution", "form": form, "flags": " ".join(fl), "threads": " ".join(th), "explicit": explicit,
+                               "kinds": [f["kind"] for f in files]},
+                              {"why": "a printed line is not the line of the file it is shown for (Attribution.tla)",
+                               "args": [a if a != pre else "pre.sh" for a in j["args"]],
+                               "files": {f["name"]: f["text"] for f in files}, "stdout": so[:1500].decode("latin1"), "stderr": se[:400].decode("latin1")})
+            else:
+                chk.validated += 1
+                if any(not f["ok"] for f in files[:-1]) and sum(1 for x in r["out"] if x["k"] == "heading") >= 2:
+                    chk.nontrivial_case("attr:%d:%s:%s:%s" % (t, form, " ".join(fl), " ".join(th)))
+    finally:
+        sc.close()
+
+
 def main(tier):
     chk = vlib.Check("C09", tier)
     chk.rule = ("line mode: every (pattern, options) of the printer family on the whole line catalogue through 5 output forms; multi-line: "
@@ -476,6 +621,7 @@ def main(tier):
     line_part(chk, tier)
     ml_part(chk, tier)
     raw_json_part(chk, tier)
+    attribution_part(chk, tier)
     chk.exhaustive = True
     return chk.finish()
 
